@@ -13,6 +13,9 @@ sub-checks
   ss_scale  the same map at lengths that straddle runtime thresholds (9..14, 31..36, 256..258;
             thorough also 63..66, 127..132, 255..260, 511..514) on decreasing sequences with a block
             of j non-minima, j around the set-resize points 4/5, 18/19, 76/77
+  ops_scale the operators, predicates and counters at lengths around the interpreter's recursion
+            limit (L/2, L, 3L/2) and the small-table thresholds, on structured shapes, against the
+            iterative device simulations; RecursionError = no answer
   gens      E2: breadth-first search over histories of LIVE dihedral_group generators, dihedral()
             calls, abandoned and complete enumerations (mc/explore.py), with read-back
   fresh     list results of the helpers damaged in place, public answers asked again
@@ -560,6 +563,147 @@ def shard_deep(shard):
 
 
 # --------------------------------------------------------------------------------------------
+# ops_scale: the sorting operators at sizes derived from the interpreter's limits
+# --------------------------------------------------------------------------------------------
+# Sizes: around the hash-table / small-int thresholds (9, 10, 33, 34, 257, 258) and around the
+# recursion limit L = sys.getrecursionlimit(): L/2-1 .. L/2+2, L-1 .. L+2, 3L/2.  Shapes that make
+# the devices work (SHAPES below), reference = the iterative device simulations of ref_c12 (explicit
+# stack, no recursion).  The recursive library functions may run out of stack on long inputs: a
+# RecursionError is counted as "no answer" and is not a violation; a wrong answer is.
+# The pass counters are only called when the reference needs at most COUNT_CAP passes (a counter
+# costs passes x one operator call; the operator itself is checked on every shape anyway).
+
+COUNT_CAP = 12
+SCALE_CPU_LIMIT = 60.0
+
+
+def _coprime_ks(n):
+    return [k for k in (2, 3, 5, 7, 11, 13, 17) if math.gcd(k, n) == 1][:3]
+
+
+def _sum_of(block, n):
+    m = len(block)
+    out = [b + v for b in range(0, n - m + 1, m) for v in block]
+    return tuple(out + list(range(len(out), n)))
+
+
+def scale_shapes(n):
+    """name -> permutation of length n (all deterministic, all distinct by name)."""
+    ident = tuple(range(n))
+    sh = {"identity": ident, "reverse": ident[::-1]}
+    for k in _coprime_ks(n):
+        sh["%d*i mod n" % k] = tuple((k * i) % n for i in range(n))
+    for r in (1, n // 2, n - 1):
+        sh["identity rotated by %s" % {1: "1", n // 2: "n/2", n - 1: "n-1"}[r]] = ident[r:] + ident[:r]
+    sh["reverse rotated by n/2"] = ident[::-1][n // 2:] + ident[::-1][:n // 2]
+    for b in (2, 3):
+        lay = tuple(v for lo in range(0, n, b) for v in range(min(lo + b, n) - 1, lo - 1, -1))
+        sh["layered, blocks of %d" % b] = lay
+        sh["reverse of layered, blocks of %d" % b] = lay[::-1]
+    for name, q in (("0", 0), ("n/2", n // 2), ("n-2", n - 2)):
+        sh["%s then decreasing" % name] = (q,) + tuple(v for v in range(n - 1, -1, -1) if v != q)
+    for name, q in (("n/2", n // 2), ("n-1", n - 1)):
+        sh["%s then increasing" % name] = (q,) + tuple(v for v in range(n) if v != q)
+    for d in (3, 7):
+        a = list(ident)
+        for i in range(0, n - 1, d):
+            a[i], a[i + 1] = a[i + 1], a[i]
+        sh["identity, every %d-th adjacent pair transposed" % d] = tuple(a)
+    sh["direct sum of copies of 231"] = _sum_of((1, 2, 0), n)
+    sh["direct sum of copies of 2413"] = _sum_of((1, 3, 0, 2), n)
+    sh["direct sum of copies of 3241"] = _sum_of((2, 1, 3, 0), n)
+    sk = _sum_of((1, 2, 0), n)
+    sh["direct sum of copies of 231, turned by 180 degrees"] = tuple(n - 1 - v for v in sk)[::-1]
+    return sh
+
+
+def scale_sizes(quick):
+    import sys
+    lim = sys.getrecursionlimit()
+    small = [9, 10, 33, 34, 257, 258]
+    if quick:
+        around = [lim // 2, lim // 2 + 1, lim // 2 + 2, lim, lim + 1]
+    else:
+        around = [lim // 2 - 1, lim // 2, lim // 2 + 1, lim // 2 + 2, lim - 1, lim, lim + 1, lim + 2,
+                  3 * lim // 2]
+    return lim, sorted(set(small + around))
+
+
+def ref_ops_scale(p):
+    n = len(p)
+    ident = D.identity(n)
+    s1 = D.stack_pass(p)
+    s2 = D.stack_pass(s1)
+    s3 = D.stack_pass(s2)
+    pp, bb, qq = D.pop_stack_pass(p), D.bubble_pass(p), D.quick_pass(p)
+    assert pp == D.pop_stack_pass_runs(p)
+    exp = {"stack_sort": s1, "pop_stack_sort": pp, "bubble_sort": bb, "quick_sort": qq,
+           "stack_sortable": s1 == ident, "pop_stack_sortable": pp == ident,
+           "bubble_sortable": bb == ident, "quick_sortable": qq == ident,
+           "west_2_stack_sortable": s2 == ident, "west_3_stack_sortable": s3 == ident}
+    for name, one in (("count_stack_sorts", D.stack_pass), ("count_pop_stack_sorts", D.pop_stack_pass)):
+        cur, k = tuple(p), 0
+        while cur != ident and k <= COUNT_CAP:
+            cur = one(cur)
+            k += 1
+        exp[name] = k if cur == ident else None        # None: more than COUNT_CAP passes, not asked
+    return exp
+
+
+def check_ops_scale(part, Perm, n, shape):
+    import signal
+    p = scale_shapes(n)[shape]
+    assert sorted(p) == list(range(n)), (n, shape)
+    exp = ref_ops_scale(p)
+    P = Perm(p)
+    for name, e in exp.items():
+        if e is None:
+            part.bump("ops_scale: counter not asked (reference needs more than %d passes)" % COUNT_CAP)
+            continue
+        case = {"n": n, "shape": shape, "op": name}
+        old = signal.signal(signal.SIGVTALRM, _on_alarm)
+        signal.setitimer(signal.ITIMER_VIRTUAL, SCALE_CPU_LIMIT)
+        try:
+            got = getattr(P, name)()
+        except RecursionError:
+            part.bump("ops_scale: RecursionError (no answer) %s n=%d" % (name, n))
+            continue
+        except _Timeout:
+            part.violation("ops_scale", case, {"no answer within %g s of CPU time" % SCALE_CPU_LIMIT: True})
+            continue
+        except Exception as exc:  # noqa
+            part.violation("ops_scale", case, {"exception": repr(exc)})
+            continue
+        finally:
+            signal.setitimer(signal.ITIMER_VIRTUAL, 0)
+            signal.signal(signal.SIGVTALRM, old)
+        part.bump("ops_scale: answers")
+        if isinstance(e, tuple):
+            g = tuple(got)
+            if not isinstance(got, Perm) or g != e:
+                i = next((i for i in range(min(len(g), n)) if g[i] != e[i]), min(len(g), n))
+                part.violation("ops_scale", case, {"first difference at index": i,
+                                                   "expected there": list(e[i:i + 8]),
+                                                   "got there": list(g[i:i + 8]), "length got": len(g)})
+        elif got != e or not isinstance(got, type(e)):
+            part.violation("ops_scale", case, {"expected": e, "got": repr(got)})
+    return exp
+
+
+def shard_ops_scale(shard):
+    n, shape = shard
+    Perm = _P()
+    part = Partial()
+    exp = check_ops_scale(part, Perm, n, shape)
+    part.add(1, 1 if not exp["stack_sortable"] else 0)
+    if n == 33 and shape == "3*i mod n" or n == 34 and shape == "3*i mod n":
+        part.sample({"sub": "ops_scale", "n": n, "shape": shape,
+                     "stack passes (reference, capped)": exp["count_stack_sorts"],
+                     "pop-stack passes (reference, capped)": exp["count_pop_stack_sorts"]}, cap=1)
+    return part
+
+
+# --------------------------------------------------------------------------------------------
 # gens (E2): histories of LIVE generators of dihedral_group and of calls of dihedral()
 # --------------------------------------------------------------------------------------------
 # dihedral_group(n) is the one generator-returning function of the property; dihedral(p) opens
@@ -908,7 +1052,7 @@ def run(ctx, only=None):
                 "on it (each permutation once per sub-check). non-trivial: ops - length>=3 and not "
                 "sorted by one stack pass; ss - the permutation is in the domain of at least one "
                 "direction and is moved by the map (same for ss_long); families - length>=3 and member of some but not "
-                "all of the ten families; gens - distinct states of the history search; fresh - length>=3, not the identity; deep - tableau has a second row of length>=2")
+                "all of the ten families; ops_scale - shape not sorted by one stack pass; gens - distinct states of the history search; fresh - length>=3, not the identity; deep - tableau has a second row of length>=2")
     ctx.assumptions = [
         "reference definitions in mc/ref_c12.py; the quicksort operator is the one described in the "
         "comments of Perm._quick_sort (strong fixed points stay, blocks between them are partitioned "
@@ -1007,6 +1151,15 @@ def run(ctx, only=None):
         ctx.section("ss_scale", evaluations=ctx.evals - e0,
                     members_by_length={str(n): sum(m for nn, m in res if nn == n)
                                        for n in sorted({nn for nn, _ in res})})
+    if want("ops_scale"):
+        e0 = ctx.evals
+        lim, sizes = scale_sizes(quick)
+        shards = [(n, shape) for n in sizes for shape in scale_shapes(n)]
+        ctx.pmap(shard_ops_scale, shards)
+        ctx.bounds["ops_scale"] = {"recursion limit": lim, "lengths": sizes,
+                                   "shapes": sorted(scale_shapes(sizes[0])),
+                                   "functions": "4 operators, 6 predicates; 2 counters when <= %d passes" % COUNT_CAP}
+        ctx.section("ops_scale", evaluations=ctx.evals - e0, lengths=sizes)
     if want("gens"):
         e0 = ctx.evals
         depth = 6 if quick else 8
@@ -1064,6 +1217,9 @@ def replay(ctx, rec):
     from permuta.permutils.bijections import Bijections
     from permuta.bisc import perm_properties as props
     SS = Bijections.simion_and_schmidt
+    if sub == "ops_scale":
+        check_ops_scale(ctx, Perm, case["n"], case["shape"])
+        return
     if sub == "gens":
         model = GenModel(tuple(case["lengths"]))
         hist = tuple(tuple(op) for op in case["history"])
